@@ -203,6 +203,9 @@ pub fn prop() -> HistProp {
     w.deposit = 8;
     w.liq_weakest = 2;
     w.liquidate = 1;
+    // the pauser edits the whitelist and the owner the ratios in between (neither exempts anybody from the margin rules)
+    w.whitelist = 3;
+    w.ecfg = 3;
     HistProp {
         id: "C05",
         level: "exploration",
